@@ -358,6 +358,7 @@ func genProxy(rng *mrand.Rand, n int, tier string, w *bufio.Writer) {
 		// request waiting at a paused gate per service
 		paused := map[string]bool{}
 		heldAtGate := map[string]int{}
+		freedHost := ""
 		deploy := func(svc string, rollout bool) {
 			// two generations created at the same virtual instant would share their probe-tick phase, and a
 			// target's tick would then coincide with its own disposal (an exact tie of two timers, whose
@@ -386,6 +387,8 @@ func genProxy(rng *mrand.Rand, n int, tier string, w *bufio.Writer) {
 			host := ""
 			if !rollout && chance(rng, 15) {
 				host = " host=" + hexB([]byte(pick(rng, svcs))) // possibly another service's host: a conflict at install
+			} else if !rollout && freedHost != "" && freedHost != svc && chance(rng, 50) {
+				host = " host=" + hexB([]byte(freedHost)) // take over the host a removed service just gave up
 			}
 			if !rollout && chance(rng, 25) {
 				host += fmt.Sprintf(" rt=%d", dur(pick(rng, []int64{400_000_000, 1_100_000_000}))) // a short target timeout
@@ -484,6 +487,7 @@ func genProxy(rng *mrand.Rand, n int, tier string, w *bufio.Writer) {
 			case r < 91:
 				cid++
 				fmt.Fprintf(w, "remove c=%d svc=%s\n", cid, hexB([]byte(svc)))
+				freedHost = svc
 			default:
 				if len(known) > 0 {
 					tn := pick(rng, known)
